@@ -208,6 +208,7 @@ def write_pcapng(messages, rng, noise=True):
     framing, runt packets (< 10 payload bytes, e.g. mssim platform commands) interleaved, optional
     4-byte mssim trailer after responses, option blocks."""
     ether = noise and rng.random() < 0.5
+    mixed = noise and rng.random() < 0.3     # two interfaces: loopback Ethernet and raw IP (tpm2-tss pcap TCTI)
     trailer = noise and rng.random() < 0.4
     opts = b""
     if noise and rng.random() < 0.5:
@@ -215,6 +216,8 @@ def write_pcapng(messages, rng, noise=True):
     out = _block(0x0A0D0D0A, struct.pack("<IHHq", 0x1A2B3C4D, 1, 0, -1) + opts)
     idb_opts = (_opt(2, b"lo") + _opt(0, b"")) if (noise and rng.random() < 0.5) else b""
     out += _block(1, struct.pack("<HHI", 1 if ether else 101, 0, 262144) + idb_opts)
+    if mixed:
+        out += _block(1, struct.pack("<HHI", 101 if ether else 1, 0, 262144))
     carried = []
     seq = rng.randrange(1 << 32)
     ts = rng.randrange(1 << 40)
@@ -224,10 +227,12 @@ def write_pcapng(messages, rng, noise=True):
         nonlocal out, seq, ts
         pkt = _ip_tcp(payload, rng, 40000, 2321, seq)
         seq += len(payload)
-        if ether:
+        iface = rng.randrange(2) if mixed else 0
+        eth = ether if iface == 0 else not ether
+        if eth:
             pkt = b"\x00" * 12 + b"\x08\x00" + pkt
         ts += rng.randrange(1, 5000)
-        out += _block(6, struct.pack("<IIIII", 0, ts >> 32, ts & 0xFFFFFFFF, len(pkt), len(pkt)) + pkt)
+        out += _block(6, struct.pack("<IIIII", iface, ts >> 32, ts & 0xFFFFFFFF, len(pkt), len(pkt)) + pkt)
 
     for j, m in enumerate(messages):
         if noise and rng.random() < 0.3:
@@ -241,7 +246,7 @@ def write_pcapng(messages, rng, noise=True):
     if noise and rng.random() < 0.2:
         packet(bytes(rng.randrange(256) for _ in range(rng.choice((0, 4)))))
         runts += 1
-    return out, dict(ether=ether, trailer=trailer, runts=runts, options=bool(opts))
+    return out, dict(ether=ether, mixed=mixed, trailer=trailer, runts=runts, options=bool(opts))
 
 
 def ref_pcapng_carried(blob):
